@@ -325,7 +325,12 @@ class RepoClass:
 
     def get_class_attr(self, interp, name):
         if name not in self.class_attrs:
-            self.class_attrs[name] = interp.eval_in_module(self.module, self.class_attr_nodes[name])
+            node = self.class_attr_nodes[name]
+            if isinstance(node, ast.Name) and node.id in self.methods:
+                # `alias = method` in the class body
+                self.class_attrs[name] = self.methods[node.id]
+            else:
+                self.class_attrs[name] = interp.eval_in_module(self.module, node)
         return self.class_attrs[name]
 
     def __repr__(self):
@@ -1824,7 +1829,19 @@ class Interp:
                 raise PyRaise(self.make_exc("TypeError", f"indices must be integers, not {type(k).__name__}"))
         if isinstance(o, dict):
             if isinstance(k, Sym):
-                raise Unsupported("dict lookup with symbolic key")
+                # symbolic key over a dict with concrete numeric keys: the key must be one of them (safety obligation),
+                # the value is selected by an if-chain
+                keys = [kk for kk in o if is_num(kk) and not isinstance(kk, Sym)]
+                if not keys or len(keys) != len(o):
+                    raise Unsupported("dict lookup with symbolic key")
+                if self.safety and not self.spec:
+                    self.path.oblige(f"safety.key@L{self.lineno}", V.sor(*[V.compare("==", k, kk) for kk in keys]),
+                                     {"kind": "safety", "line": self.lineno, "clause": "the key is in the dict"})
+                r = o[keys[-1]]
+                for kk in reversed(keys[:-1]):
+                    c = V.compare("==", k, kk)
+                    r = V.ite(c, o[kk], r) if (is_num(o[kk]) and is_num(r)) else self._obj_ite(c, o[kk], r)
+                return r
             kk = self.dict_key(o, k)
             if kk is _MISSING:
                 raise PyRaise(self.make_exc("KeyError", k))
@@ -1857,7 +1874,10 @@ class Interp:
                            for x, y in zip(a, b))
         if isinstance(a, SArr) and isinstance(b, SArr):
             fa, fb = a.snapshot(), b.snapshot()
-            return SArr(a.shape, lambda idx: V.ite(c, fa(idx), fb(idx)), a.dtype)
+            if a.ndim != b.ndim:
+                raise Unsupported("symbolic selection between arrays of different rank")
+            shp = tuple(sa if (not is_sym(sa) and not is_sym(sb) and sa == sb) else V.ite(c, sa, sb) for sa, sb in zip(a.shape, b.shape))
+            return SArr(shp, lambda idx: V.ite(c, fa(idx), fb(idx)), a.dtype)
         h = self.stubs.get("__ite__")
         if h is not None:
             r = h(self, c, a, b)
